@@ -1,3 +1,21 @@
-import GoStd.Bytes
+/- Obligations on regenerated typed facts (tie A): a source edit that changes the fact makes the theorem fail at `lake build`. -/
+import Generated.Facts
+
 namespace Expected
+open Generated
+
+/-! ### F8 (C10, C11): views into reader / pool buffers -/
+
+/-- C11: readLine copies the first fragment before it calls ReadLine again (Reader.joinFragments true). -/
+theorem readLine_copies_first_fragment : readLineCopiesFirstFragment = true := by decide
+
+/-- C10: the UDP parse loop builds its reader over the first n bytes of the pooled buffer only … -/
+theorem udp_reader_over_datagram : udpReaderOver = "sized_byte_array.b[:sized_byte_array.n]" := by decide
+
+/-- … and parses, frees the buffer exactly once, then hands the message on, in this order. -/
+theorem udp_parse_loop_shape : udpParseLoop =
+    ["sized_byte_array := <-u.msgParseChannel",
+     "reader := bufio.NewReaderSize(bytes.NewBuffer(sized_byte_array.b[:sized_byte_array.n]), sized_byte_array.n)",
+     "msg, err := ParseMessage(reader)", "u.msgBufPool.Free(sized_byte_array.b)", "if err == nil {…}"] := by decide
+
 end Expected
